@@ -1,6 +1,6 @@
 import RedoModel.TokLoop
 /-
-`tokloop-replay <top|sub> <events>`: the primitive token events ONE redo process logged (the `js.*` hook points, in
+`tokloop-replay <top|sub|exttop> <events>` (exttop = inherited jobserver, own cheat pipe: the top of a redo tree under make): the primitive token events ONE redo process logged (the `js.*` hook points, in
 order), grouped into the compound steps of `TokLoop` and replayed through `lstep true`: after every compound step the
 process's `(my_tokens, cheats)` as logged must be the model's, at the exit the number of jobs still running and the
 number of IOUs written must be the model's.  This ties `TokLoop` (Props/C09 `no_panic`, `backed_step`, `exit_states`,
@@ -12,7 +12,7 @@ Grouping (what the code does between two awaits):
   cx ea                     -> childExitEat           cx cr(1) [rl]        -> childExit
   rd                        -> tokenRead              ct(1)                -> cheat
   de(1) st                  -> start                  rl (on its own)      -> releaseMine, or the releasing poll of wait_all
-  fr(n) cr(n) [rl] [de] [cw] rt   -> exit (n = running; IOUs = cw)
+  fr(n) cr(n) [rl] [de] [cw] [rd] rt   -> exit (n = running; IOUs = cw; rd = the token an exttop process takes back)
   at the very start of a process that owns its jobserver: cr(N-1) rl(N-1)  (set-up, the process keeps one token)
 Answer: `ok steps=<k> my=<n> cheats=<n> running=<n> exited=<b>` or `reject at=<index of the primitive> <reason>`.
 -/
@@ -77,43 +77,49 @@ def takeCw : List Prim → Nat × List Prim
   | .cw n :: r => (n, r)
   | r => (0, r)
 
+/-- The token a process at the top of its redo tree under a foreign jobserver takes back from the pipe when it is about
+to leave with none (repaired in /repo: it used to leave an IOU that nobody reads). -/
+def takeRd : List Prim → Option (Nat × Nat) × List Prim
+  | .rd m c :: r => (some (m, c), r)
+  | r => (none, r)
+
 /-- `fuel` bounds the number of compound steps (the caller passes the number of primitives plus one). -/
-def replay (top : Bool) : Nat → LS → Nat → Nat → List Prim → Except (Nat × String) (LS × Nat)
+def replay (top ext : Bool) : Nat → LS → Nat → Nat → List Prim → Except (Nat × String) (LS × Nat)
   | 0, _, i, _, _ => .error (i, "out of fuel")
   | _ + 1, s, _, k, [] => .ok (s, k)
-  | f + 1, s, i, k, .rp :: r => replay top f s (i + 1) k r
-  | f + 1, s, i, k, .te :: r => replay top f s (i + 1) k r
+  | f + 1, s, i, k, .rp :: r => replay top ext f s (i + 1) k r
+  | f + 1, s, i, k, .te :: r => replay top ext f s (i + 1) k r
   | f + 1, s, i, k, .cx _ _ :: .ea m c :: r =>
     match stepAs s [.childExitEat] m c with
-    | .ok s' => replay top f s' (i + 2) (k + 1) r
+    | .ok s' => replay top ext f s' (i + 2) (k + 1) r
     | .error w => .error (i, w)
   | f + 1, s, i, k, .cx _ _ :: .cr 1 _ _ :: .rl _ _ m c :: r =>
     match stepAs s [.childExit] m c with
-    | .ok s' => replay top f s' (i + 3) (k + 1) r
+    | .ok s' => replay top ext f s' (i + 3) (k + 1) r
     | .error w => .error (i, w)
   | f + 1, s, i, k, .cx _ _ :: .cr 1 m c :: r =>
     match stepAs s [.childExit] m c with
-    | .ok s' => replay top f s' (i + 2) (k + 1) r
+    | .ok s' => replay top ext f s' (i + 2) (k + 1) r
     | .error w => .error (i, w)
   | f + 1, s, i, k, .rd m c :: r =>
     match stepAs s [.tokenRead] m c with
-    | .ok s' => replay top f s' (i + 1) (k + 1) r
+    | .ok s' => replay top ext f s' (i + 1) (k + 1) r
     | .error w => .error (i, w)
   | f + 1, s, i, k, .ct 1 m c :: r =>
     match stepAs s [.cheat] m c with
-    | .ok s' => replay top f s' (i + 1) (k + 1) r
+    | .ok s' => replay top ext f s' (i + 1) (k + 1) r
     | .error w => .error (i, w)
   | f + 1, s, i, k, .de 1 _ _ :: .st m c :: r =>
     match stepAs s [.start] m c with
-    | .ok s' => replay top f s' (i + 2) (k + 1) r
+    | .ok s' => replay top ext f s' (i + 2) (k + 1) r
     | .error w => .error (i, w)
   | f + 1, s, i, k, .cr n _ _ :: .rl n' _ m c :: r =>
     -- set-up of a process that owns its jobserver: N-1 tokens created and put into the pipe, one kept
-    if i = 0 ∧ top ∧ n = n' ∧ m = 1 ∧ c = 0 ∧ s.my = 1 ∧ s.cheats = 0 then replay top f s (i + 2) k r
+    if i = 0 ∧ top ∧ n = n' ∧ m = 1 ∧ c = 0 ∧ s.my = 1 ∧ s.cheats = 0 then replay top ext f s (i + 2) k r
     else .error (i, "tokens created outside a child exit, the exit path or the set-up")
   | f + 1, s, i, k, .rl _ _ m c :: r =>
     match stepAs s [.releaseMine, .waitAll] m c with
-    | .ok s' => replay top f s' (i + 1) (k + 1) r
+    | .ok s' => replay top ext f s' (i + 1) (k + 1) r
     | .error w => .error (i, w)
   | f + 1, s, i, k, .fr n :: .cr n' m c :: r =>
     if n ≠ s.running then .error (i, s!"force_return_tokens finds {n} jobs running, the model {s.running}")
@@ -128,12 +134,21 @@ def replay (top : Bool) : Nat → LS → Nat → Nat → List Prim → Except (N
         let (d, r2) := takeDe r1
         let (w, r3) := takeCw r2
         let used := used + (if d.isSome then 1 else 0) + (if w > 0 then 1 else 0)
+        let (rd, r3) := takeRd r3
+        -- `retake`: top of the redo tree under a foreign jobserver, about to leave with no token and no cheat
+        let retake := ext && s'.my = 0 && s'.cheats = 0
+        let used := used + (if rd.isSome then 1 else 0)
         if d.getD 0 ≠ s'.cheats then .error (i, s!"the exit destroys {d.getD 0} tokens, the model's cheats are {s'.cheats}")
-        else if w ≠ exitIous top s' then .error (i, s!"the exit writes {w} IOUs, the model {exitIous top s'}")
-        else match r3 with
+        else if retake && w ≠ 0 then .error (i, s!"the exit of the top of a redo tree under a foreign jobserver writes {w} IOUs (nobody reads them)")
+        else if retake && rd ≠ some (1, 0) then .error (i, "the top of a redo tree under a foreign jobserver leaves without taking its token back from the pipe")
+        else if !retake && rd.isSome then .error (i, "a token is read on the exit path of a process that holds one")
+        else if !retake && w ≠ exitIous top s' then .error (i, s!"the exit writes {w} IOUs, the model {exitIous top s'}")
+        else
+        let s' : LS := if retake then { s' with my := 1 } else s'
+        match r3 with
           | .rt m2 c2 :: r4 =>
             if m2 + s'.cheats ≠ s'.my ∨ c2 ≠ s'.cheats then .error (i, "the counters logged at the end of the exit path are not the model's")
-            else replay top f s' (i + used + 1) (k + 1) r4
+            else replay top ext f s' (i + used + 1) (k + 1) r4
           | [] => .ok (s', k + 1)        -- killed before the last hook of the exit path
           | _ => .error (i, "the exit path does not end with `returned`")
   -- a trace that ends inside a compound step (the process was killed there): nothing more to compare
@@ -145,7 +160,7 @@ def replay (top : Bool) : Nat → LS → Nat → Nat → List Prim → Except (N
 def respond (kind : String) (evs : String) : String :=
   match (if evs = "-" then some [] else (evs.splitOn ";").mapM parsePrim) with
   | some ps =>
-    match replay (kind == "top") (ps.length + 1) {} 0 0 ps with
+    match replay (kind == "top") (kind == "exttop") (ps.length + 1) {} 0 0 ps with
     | .ok (s, k) => s!"ok steps={k} my={s.my} cheats={s.cheats} running={s.running} exited={s.exited}"
     | .error (i, w) => s!"reject at={i} " ++ w.replace " " "_"
   | none => "bad-op"
